@@ -9,7 +9,7 @@ CONSTANTS
   Amounts = {1, 3, 10, 25}
   Pairs = 1
   WdAmounts = {10}
-  CfgIds = {2, 3, 4, 11}
+  CfgIds = {3, 4, 11, 13}
   ScenIds = {1, 2}
   FixIds = {0}
   VaryPrices = FALSE
